@@ -104,11 +104,16 @@ theorem ask_rej (r : Req) (hk : mlK r.kind = true) :
     | exact Rej.ext ⟨⟨[_], rfl, by simp [hk]⟩, rfl, rfl⟩ (by assumption)
     | (refine ⟨Rej.ext ⟨⟨[_], rfl, by simp [hk]⟩, rfl, rfl⟩ (by assumption), ?_⟩; simp [raisedIn])
 
+theorem askHook_rej (r : Req) (hk : mlK r.kind = true) :
+    ⦃fun w => ⌜Rej x0 bR w⌝⦄ askHook r
+    ⦃post⟨fun _ w => ⌜Rej x0 bR w⌝, fun e w => ⌜Rej x0 bR w ∧ raisedIn w.trace e = true⌝⟩⦄ :=
+  askHook_triple r (ask_rej x0 bR r hk) (fun w h => presil_cases (Rej x0 bR) w (fun _ => ⟨h.1, h.2, h.3⟩))
+
 theorem emitBreakerEvent_rej (cfg : Cfg) (ev : Option Event) (st : CState) (k : Option EClass) :
     ⦃fun w => ⌜Rej x0 bR w⌝⦄ emitBreakerEvent cfg ev st k
     ⦃post⟨fun _ w => ⌜Rej x0 bR w⌝,
           fun e w => ⌜Rej x0 bR w ∧ e.isException = false ∧ raisedIn w.trace e = true⌝⟩⦄ := by
-  have h := ask_rej x0 bR
+  have h := askHook_rej x0 bR
   mvcgen [emitBreakerEvent, swallowException, askMetric, askLog, h]
   all_goals (try subst_vars) <;> (try intros)
   all_goals first
